@@ -2,6 +2,5 @@ SPECIFICATION Spec
 CONSTANTS
   Narrow8 = FALSE
   AnyEchoSrc = FALSE
-INVARIANTS Report Drift
-POSTCONDITION TraceAccepted
+INVARIANTS C01_Design C02_Design C04_Design C09_Design Unsup_Design
 CHECK_DEADLOCK FALSE
